@@ -469,7 +469,14 @@ func runC14(c *core.Ctx) {
 
 	// distinct-member loop
 	loops := eng.FindSliceLoops(fn, isBookkeepers)
+	viaHelper := false
 	if len(loops) == 0 {
+		// the membership / distinctness loop may stand in a same-package helper (shared rule)
+		viaHelper = distinctMemberLoop(c, "C14.distinct-members", fn, isBookkeepers, isPeerMap, pid, vbftSucc, "vbft success return")
+	}
+	if viaHelper {
+		// decided by the shared rule
+	} else if len(loops) == 0 {
 		// a loop over a PART of the list (header.Bookkeepers[:m], [1:], …) checks membership for some keys only,
 		// while VerifyMultiSignature is handed the whole list
 		partial := eng.FindSliceLoops(fn, func(v ssa.Value) bool {
